@@ -9,7 +9,7 @@ DeleteSheet / SetSheetVisible / SetSheetName / MoveSheet, the template workbook)
 `Facts.MaxSheetNameLength`.  `ops` ranges over ALL finite histories of API calls,
 including rejected ones; `run init ops` is the state after the history on a `NewFile`.
 -/
-import XlModel.Lemmas.Sheets5
+import XlModel.Lemmas.Sheets7
 
 namespace XlModel.Props.C16
 open XlModel XlModel.Sheets
@@ -131,7 +131,34 @@ theorem then_independent (ops : List Op) (n : Name) (v : Nat) (s' : St)
   obtain ⟨_, hp⟩ := consistent_any_history ops
   exact setCell_parts _ s' hp n v h
 
-/-! ## the sheet list after each call is what the ordered-list model says -/
+/-! ## clause "the sheet list equals what an ordered-list model predicts": `Impl` refines `Spec` -/
+
+/-- THE SIMULATION.  `view` maps a workbook state to the ordered list of (name, visible, A1 content,
+tab selected) with the active index.  After ANY history of calls on a new file the list the
+implementation model holds is exactly the list obtained by running the ordered-list model `Spec` over
+the same calls (accepted or rejected): NewSheet appends, DeleteSheet removes (unless it is the only
+or the last visible sheet) and re-activates by name, CopySheet copies content, MoveSheet splices and
+re-activates, SetSheetName renames, SetSheetVisible hides unless last visible or selected,
+SetActiveSheet / GroupSheets / UngroupSheets move the selection, SetCellInt writes one sheet; the
+content of every sheet not targeted is unchanged because `Spec` does not change it. -/
+theorem sheets_refine_list (ops : List Op) : view (run init ops) = specRun Spec.init ops := by
+  rw [sim_run init ops init_inv init_pb, view_init]
+
+/-- one-step form: from any state reached by a history, the list after the next call is `Spec.step` of
+the list before it -/
+theorem sheets_refine_list_step (ops : List Op) (op : Op) :
+    view (step (run init ops) op).1 = (Spec.step (view (run init ops)) op).1 := by
+  obtain ⟨hi, hp⟩ := consistent_any_history ops
+  exact (sim_step _ op hi hp).symm
+
+/-- the call is accepted by the implementation model exactly when the list model accepts it
+(SetDefinedName is outside the list model) -/
+theorem sheets_refine_list_accept (ops : List Op) (op : Op) (hop : ∀ k sc, op ≠ .defname k sc) :
+    (Spec.step (view (run init ops)) op).2 = (step (run init ops) op).2.isNone := by
+  obtain ⟨hi, hp⟩ := consistent_any_history ops
+  exact sim_accept _ op hi hp hop
+
+/-! ## the sheet list after each call, operation by operation -/
 
 /-- NewSheet: nothing changes when the name exists (case-insensitively), otherwise one visible
 sheet with a fresh id (larger than every listed id, and past every existing part) is appended;
